@@ -1693,6 +1693,7 @@ func propC07(r *Run) {
 	}
 	c.timeOracle()
 	c.timeFamilies()
+	c.quotedEmptyPrefix()
 	for _, cf := range corpus {
 		c.mutateFile(cf, quick)
 	}
